@@ -70,6 +70,31 @@ fn ghost_value(rng: &mut StdRng, version: u32, key: &[u8], predicted_sector: u64
     v
 }
 
+/// A one-block value for which the 16-bit fold of the record's CRC is exactly 0 at the predicted sector
+/// (the stamped token is then the reserved replacement value 1): writer and reader must agree on it.
+fn fold_zero_value(key: &[u8], predicted_sector: u64, ts: u64) -> Option<Vec<u8>> {
+    let header = 4 + 2 + key.len() + 8 + 8 + 8;
+    let mut val = vec![b'z'; L::BLOCK - header];
+    let n = val.len();
+    let ext = L::encode_record(3, predicted_sector, key, &val, ts, 0);
+    if ext.len() != L::BLOCK {
+        return None;
+    }
+    // CRC state over everything but the last four bytes (the value ends exactly at the block end)
+    let mut c = L::crc32c(0, &predicted_sector.to_le_bytes());
+    c = L::crc32c(L::crc32c(L::crc32c(c, &ext[..2]), &[0, 0]), &ext[4..L::BLOCK - 4]);
+    for i in 0..400_000u32 {
+        let tail = i.to_le_bytes();
+        let f = L::crc32c(c, &tail);
+        if ((f >> 16) ^ (f & 0xFFFF)) as u16 == 0 {
+            val[n - 4..].copy_from_slice(&tail);
+            let check = L::encode_record(3, predicted_sector, key, &val, ts, 0);
+            return if L::record_fold_raw(predicted_sector, &check) == 0 { Some(val) } else { None };
+        }
+    }
+    None
+}
+
 fn predict_alloc(free: &[(u64, u64)], n: u64) -> u64 {
     let mut best: Option<(u64, u64)> = None;
     for (s, l) in free {
@@ -168,6 +193,7 @@ pub fn main(args: &[String]) -> i32 {
     let sizes = [20usize, 300, 3000, 4000, 4100, 7000, 8300];
     let edge_pct: u32 = o.num("edges", 25u32);
     let readcheck = o.num("readcheck", 0u32) == 1;
+    let foldzero_pct: u32 = o.num("foldzero", 4u32);
     let wide: usize = o.num("wide", 0);
     let wide_every: usize = o.num("wideevery", 12usize).max(2);
     // backlog of untracked filler records (keys outside the universe of the trace): more than one
@@ -258,11 +284,19 @@ pub fn main(args: &[String]) -> i32 {
                 let as_marker = rng.random_bool(0.3);
                 val = ghost_value(&mut rng, fmt, &key, at, as_marker);
             }
-            let ts_choice = match rng.random_range(0..8) {
+            let mut ts_choice = match rng.random_range(0..8) {
                 0 => Some(rng.random_range(5..40)),
                 1 => Some(now + rng.random_range(1..3) * E9),
                 _ => None,
             };
+            if fmt == 3 && key.len() < 100 && foldzero_pct > 0 && rng.random_range(0..100) < foldzero_pct {
+                let ts = now + 4 * E9 + step as u64;
+                let at = predict_alloc(&store.verif_free_runs(), 1);
+                if let Some(v) = fold_zero_value(&key, at, ts) {
+                    val = v;
+                    ts_choice = Some(ts);
+                }
+            }
             obs::api("api_call", &key, call_idx, 0, 0);
             let as_bytes = rng.random_bool(0.4);
             let res = match (use_ttl, as_bytes) {
